@@ -6,9 +6,18 @@
 // per-thread result digests are compared.  The monitor uses no shared atomics
 // during the round (they would add happens-before edges and hide races); real
 // overlap is measured from thread-local timestamps merged after join.
+// Scale: next to the small shared objects there are shared strings / buffers of
+// 64 KiB .. 1 MiB (lengths on and next to multiples of the block sizes); about
+// one step in 60..150 of every thread program is a const operation on one of
+// them (searches in both case modes, split, replace, trim, comparisons, hashes,
+// conversions ...) or an operation on thread-local objects of that size.  After
+// the concurrent round and after the sequential one every shared object is
+// compared with a private copy taken before (same place, same size, same units,
+// terminator included).
 #include "vrt.h"
 #include "vrt_st.h"
 #include "ref_unicode.h"
+#include "gen_scale.h"
 #include <thread>
 #include <cmath>
 #include <algorithm>
@@ -20,12 +29,29 @@ using vrt::Rng;
 using vrt::sfmt;
 typedef std::string S;
 
+// a shared object as it was when the round started: where its units are, and a private copy of them (terminator included)
+struct Watch {
+    std::string name;
+    const void *data;
+    size_t units, unit;
+    std::string orig;
+};
+
 struct Shared {
-    std::vector<ST::string> strs;
+    std::vector<ST::string> strs;     // the small ones first, then (from index nsmall on) the ones of 64 KiB .. 1 MiB
+    size_t nsmall = 0, large = 0;     // large: the index of the one string of 256 KiB .. 1 MiB
+    std::vector<size_t> twin;         // for a big string: the index of a big string that equals it up to case / up to its last bytes
     ST::char_buffer cbuf;
     ST::utf16_buffer u16buf;
     ST::utf32_buffer u32buf;
     ST::wchar_buffer wbuf;
+    // the same four buffer types holding >= 64 Ki units
+    ST::char_buffer big_cbuf;
+    ST::utf16_buffer big_u16buf;
+    ST::utf32_buffer big_u32buf;
+    ST::wchar_buffer big_wbuf;
+    std::vector<Watch> watch;
+    size_t nbig() const { return strs.size() - nsmall; }
 };
 
 struct OpStamp {
@@ -36,7 +62,7 @@ struct OpStamp {
 
 struct ThreadOut {
     uint64_t digest = 0xcbf29ce484222325ull;
-    uint64_t ops = 0;
+    uint64_t ops = 0, big_ops = 0;
     std::vector<OpStamp> stamps;
     std::string error;
 };
@@ -51,13 +77,27 @@ static inline void mix(uint64_t &d, const void *p, size_t n) { d = vrt::fnv1a(p,
 static inline void mixv(uint64_t &d, uint64_t v) { d = vrt::fnv_u64(v, d); }
 static inline void mixs(uint64_t &d, const ST::string &s) { mix(d, s.c_str(), s.size()); mixv(d, s.size()); }
 
-static const int NOPS = 44;
+static const int NOPS_BASE = 44;      // 0..19 const operations on shared objects, 20..43 on thread-local objects
+static const int NOPS_SHARED2 = 10;   // 44..53 more const operations on shared objects (searches of both case modes, split, trim, ...)
+static const int NOPS_LOCAL_BIG = 4;  // 54..57 thread-local objects of >= 64 KiB (only chosen in "big" steps)
+static const int NOPS = NOPS_BASE + NOPS_SHARED2 + NOPS_LOCAL_BIG;
+static inline bool on_shared(int op) { return op < 20 || (op >= NOPS_BASE && op < NOPS_BASE + NOPS_SHARED2); }
 
 // one operation of a thread program; shared objects are only read
 static void do_op(int op, Rng &r, const Shared &sh, size_t oi, uint64_t &d)
 {
     const ST::string &s = sh.strs[oi];
-    const ST::string &t = sh.strs[(oi + 1 + r.below(sh.strs.size() - 1)) % sh.strs.size()];
+    const bool big = oi >= sh.nsmall;
+    // the second operand: another small string for a small one; for a big one any other string, often its twin (so that
+    // comparisons and searches run over the whole length)
+    const size_t ti = !big ? (oi + 1 + r.below(sh.nsmall - 1)) % sh.nsmall
+                           : r.chance(1, 2) ? sh.twin[oi - sh.nsmall] : (oi + 1 + r.below(sh.strs.size() - 1)) % sh.strs.size();
+    const ST::string &t = sh.strs[ti];
+    const ST::char_buffer &cbuf = big ? sh.big_cbuf : sh.cbuf;
+    const ST::utf16_buffer &u16buf = big ? sh.big_u16buf : sh.u16buf;
+    const ST::utf32_buffer &u32buf = big ? sh.big_u32buf : sh.u32buf;
+    const ST::wchar_buffer &wbuf = big ? sh.big_wbuf : sh.wbuf;
+    static const char probes[] = "aAzZqQeEkK,xX mM";
     switch (op) {
     // ---- const operations on shared objects
     case 0: mixv(d, static_cast<uint64_t>(s.find(t)) + static_cast<uint64_t>(s.find("a")) + static_cast<uint64_t>(s.find_last('a')) + s.contains(t, ST::case_insensitive)); break;
@@ -76,9 +116,9 @@ static void do_op(int op, Rng &r, const Shared &sh, size_t oi, uint64_t &d)
     case 13: { std::ostringstream os; os << s; S x = os.str(); mix(d, x.data(), x.size()); break; }
     case 14: mixs(d, ST::hex_encode(s.c_str(), s.size())); mixs(d, ST::base64_encode(t.to_utf8())); break;
     case 15: { ST::string c(s); mixs(d, c); ST::string e = s + t; mixs(d, e); ST::string f = s + "lit"; mixs(d, f); break; }
-    case 16: mixv(d, static_cast<uint64_t>(sh.cbuf.compare(sh.cbuf)) + sh.cbuf.size() + static_cast<uint64_t>(sh.u16buf.compare(sh.u16buf)) + static_cast<uint64_t>(sh.u32buf[0]) + sh.wbuf.size()); break;
-    case 17: { auto a = ST::utf16_to_utf8(sh.u16buf); mix(d, a.data(), a.size()); auto b = ST::utf32_to_utf16(sh.u32buf); mix(d, b.data(), b.size() * 2); auto c = ST::wchar_to_utf8(sh.wbuf); mix(d, c.data(), c.size()); break; }
-    case 18: { ST::char_buffer c(sh.cbuf); mix(d, c.data(), c.size()); ST::utf16_buffer e(sh.u16buf); mix(d, e.data(), e.size() * 2); mixs(d, ST::string::from_utf8(sh.cbuf)); break; }
+    case 16: mixv(d, static_cast<uint64_t>(cbuf.compare(cbuf)) + cbuf.size() + static_cast<uint64_t>(u16buf.compare(u16buf)) + static_cast<uint64_t>(u32buf[0]) + wbuf.size()); break;
+    case 17: { auto a = ST::utf16_to_utf8(u16buf); mix(d, a.data(), a.size()); auto b = ST::utf32_to_utf16(u32buf); mix(d, b.data(), b.size() * 2); auto c = ST::wchar_to_utf8(wbuf); mix(d, c.data(), c.size()); break; }
+    case 18: { ST::char_buffer c(cbuf); mix(d, c.data(), c.size()); ST::utf16_buffer e(u16buf); mix(d, e.data(), e.size() * 2); mixs(d, ST::string::from_utf8(cbuf)); break; }
     case 19: { size_t n = 0; for (auto it = s.begin(); it != s.end(); ++it) n += static_cast<unsigned char>(*it); mixv(d, n + static_cast<uint64_t>(s.to_int()) + s.size() + s.empty()); std::string_view v = s.view(); mix(d, v.data(), v.size()); break; }
     // ---- arbitrary operations on thread-local objects
     case 20: { long long v = static_cast<long long>(r.next()); mixs(d, ST::format("{} {x} {X} {o} {b} {#x} {+}", v, v, v, v, static_cast<unsigned>(v), v, v)); break; }
@@ -137,18 +177,68 @@ static void do_op(int op, Rng &r, const Shared &sh, size_t oi, uint64_t &d)
     case 40: { try { (void)ST::format("{", 1); } catch (const ST::bad_format &) { mixv(d, 79); } try { (void)ST::format("{}{}", 1); } catch (const std::out_of_range &) { mixv(d, 80); } break; }
     case 41: { std::wstring w = L"wé\U0001F600"; mixs(d, ST::string(w)); mixs(d, ST::string::from_utf16(u"x€y")); mixs(d, ST::string::from_utf32(U"\U0001F600z")); break; }
     case 42: { ST::string big = ST::string::fill(2000, 'b'); mixs(d, big.substr(500, 700)); mixs(d, big.replace("bb", "c")); break; }
+    // ---- more const operations on shared objects: searches in both case modes, with start positions / limits, split, trim ...
+    case 44: { const char c = probes[r.below(sizeof(probes) - 1)]; const size_t p = r.below(s.size() + 2);
+               mixv(d, static_cast<uint64_t>(s.find(c)) + 3 * static_cast<uint64_t>(s.find_last(c)) + 5 * static_cast<uint64_t>(s.find(p, c)) + 7 * static_cast<uint64_t>(s.find_last(p, c)) + s.contains(c)); break; }
+    case 45: { const char c = probes[r.below(sizeof(probes) - 1)]; const size_t p = r.below(s.size() + 2);
+               mixv(d, static_cast<uint64_t>(s.find(c, ST::case_insensitive)) + 3 * static_cast<uint64_t>(s.find_last(c, ST::case_insensitive)) + 5 * static_cast<uint64_t>(s.find(p, c, ST::case_insensitive))
+                       + 7 * static_cast<uint64_t>(s.find_last(p, c, ST::case_insensitive)) + s.contains(c, ST::case_insensitive)); break; }
+    case 46: { static const char *const needles[] = {"NEEDLE", "needle", "Tail", "a LONGER", "several", "\xC3\xA9 \xE2\x82\xAC", "zz", "absent from all of them"};
+               const char *n = needles[r.below(8)]; const size_t p = r.below(s.size() + 2);
+               mixv(d, static_cast<uint64_t>(s.find(n, ST::case_insensitive)) + 3 * static_cast<uint64_t>(s.find_last(n, ST::case_insensitive)) + 5 * static_cast<uint64_t>(s.find(p, n, ST::case_insensitive))
+                       + 7 * static_cast<uint64_t>(s.find_last(p, n, ST::case_insensitive)) + s.contains(n, ST::case_insensitive) + 11 * static_cast<uint64_t>(s.find(n)) + 13 * static_cast<uint64_t>(s.find_last(n)) + 2 * s.contains(n)); break; }
+    case 47: { static const char seps[] = ",Nn;T"; const char c = seps[r.below(sizeof(seps) - 1)];
+               auto v = s.split(c, 1 + r.below(6), ST::case_insensitive); for (auto &p : v) mixs(d, p);
+               auto w = s.split("Needle", 3, ST::case_insensitive); for (auto &p : w) mixs(d, p);
+               auto x = s.split(", ", 4); mixv(d, x.size()); break; }
+    case 48: mixs(d, s.replace("NEEDLE", "<n>", ST::case_insensitive)); mixs(d, s.replace("needle", ST::string("N"))); mixs(d, s.replace(ST::string("Tail"), "T", ST::case_insensitive)); break;
+    case 49: mixs(d, s.trim()); mixs(d, s.trim_left()); mixs(d, s.trim_right(" \t\r\nz")); mixs(d, s.trim("abcdefghij \n")); break;
+    case 50: mixs(d, s.before_first('N', ST::case_insensitive)); mixs(d, s.after_first("needle", ST::case_insensitive)); mixs(d, s.before_last('t', ST::case_insensitive)); mixs(d, s.after_last("TAIL", ST::case_insensitive));
+             mixs(d, s.before_first(',')); mixs(d, s.after_last(',')); break;
+    case 51: mixv(d, static_cast<uint64_t>(s.compare_i(t)) + 3 * static_cast<uint64_t>(s.compare_ni(t, s.size() / 2 + 1)) + 5 * static_cast<uint64_t>(s.compare_n(t, s.size() - s.size() / 4)) + s.starts_with(t, ST::case_insensitive) + 2 * s.ends_with(t, ST::case_insensitive)
+                     + 4 * ST::equal_i()(s, t) + 8 * ST::less_i()(s, t) + (ST::hash_i()(s) ^ ST::hash()(t)) + 16 * (s == t) + 32 * s.ends_with("needle tail", ST::case_insensitive)); break;
+    case 52: { const size_t B = scale::blocks()[r.below(scale::blocks().size())], at = B <= s.size() ? B - std::min<size_t>(B, r.below(4)) : r.below(s.size() + 1);
+               mixs(d, s.substr(static_cast<ST_ssize_t>(at), 1 + r.below(40))); mixs(d, s.left(s.size() - std::min<size_t>(s.size(), 1))); mixs(d, s.right(s.size() - std::min<size_t>(s.size(), 1))); mixs(d, s.substr(-5)); break; }
+    case 53: { mixs(d, ST::string::from_utf16(u16buf)); mixs(d, ST::string::from_utf32(u32buf)); mixs(d, ST::string::from_wchar(wbuf)); mixs(d, ST::string::from_latin_1(cbuf)); mixs(d, ST::string::from_validated(cbuf));
+               auto a = ST::utf8_to_utf16(cbuf); mix(d, a.data(), a.size() * 2); auto b = ST::utf16_to_utf32(u16buf); mix(d, b.data(), b.size() * 4); auto c = ST::utf32_to_utf8(u32buf); mix(d, c.data(), c.size());
+               mixv(d, static_cast<uint64_t>(cbuf.compare(cbuf)) + static_cast<uint64_t>(u32buf.compare(u32buf)) + static_cast<uint64_t>(wbuf.compare(wbuf))); break; }
+    // ---- thread-local objects of 64 KiB and more (a scratch area / block cache shared between threads above a size threshold)
+    case 54: { const size_t n = scale::length(r, 70000, 65535); ST::string b = ST::string::fill(n, 'b') + "Needle"; mixv(d, static_cast<uint64_t>(b.find('N', ST::case_insensitive)) + static_cast<uint64_t>(b.find("EDLE", ST::case_insensitive)) + static_cast<uint64_t>(b.find_last('L')));
+               mixs(d, b.to_upper()); mixs(d, b.replace("bbbbbbbbbbbbbbbb", "c")); mixs(d, b.substr(static_cast<ST_ssize_t>(n - 3))); auto v = b.split('n', 2, ST::case_insensitive); mixv(d, v.size()); mixv(d, ST::hash_i()(b)); break; }
+    case 55: { const size_t n = scale::length(r, 70000, 65535); ST::char_buffer a(n, 'a'), b(n, 'b'); a = b; ST::char_buffer c(65536, 'c'); c.clear(); c.allocate(n, 'd'); mix(d, a.data(), a.size()); a = c; mix(d, a.data(), a.size()); mix(d, b.data(), b.size());
+               ST::utf16_buffer u(n, u'u'); ST::utf16_buffer v(u); v = u; u.allocate(n); mix(d, v.data(), v.size() * 2); ST::string s1 = ST::string::from_validated(b), s2 = ST::string::fill(n, 'e'); s1 = s2; s2.clear(); mixs(d, s1); break; }
+    case 56: { const size_t n = scale::length(r, 70000, 65536); ST::string_stream ss; for (size_t k = 0; k < n; k += 1000) ss.append_char(static_cast<char>('a' + k / 1000 % 26), 1000); mix(d, ss.raw_buffer(), ss.size()); ss.truncate(r.below(300));
+               ss.append_char('y', 2 * n + 300); mix(d, ss.raw_buffer(), ss.size()); ST::string_stream m(std::move(ss)); m << "tail"; mixs(d, m.to_string()); break; }
+    case 57: { const int w = 65530 + static_cast<int>(r.below(12)); const std::string fmt = "{>" + std::to_string(w) + "}|{<70000}|{}"; mixs(d, ST::format(fmt.c_str(), "pad", 42, 2.5)); ST::string big = ST::string::fill(static_cast<size_t>(w), 'f');
+               mixs(d, ST::format("{}{}", big, big)); auto u = big.to_utf16(); mixv(d, u.size()); mixs(d, big + big); break; }
     default: { float v = static_cast<float>(r.range(-1000, 1000)) / 3.0f; mixs(d, ST::format("{} {.2f}", v, v)); ST::string_stream ss; ss << v << static_cast<double>(v) * 1e60; mix(d, ss.raw_buffer(), ss.size()); break; }
     }
 }
 
-static void run_program(uint64_t seed, size_t nops, const Shared &sh, ThreadOut &out, bool stamp)
+// one step in big_every is a "big" step: a const operation on one of the shared objects of 64 KiB .. 1 MiB (or, one time in
+// five, an operation on thread-local objects of that size); all other steps are as before
+static void run_program(uint64_t seed, size_t nops, size_t big_every, const Shared &sh, ThreadOut &out, bool stamp)
 {
     Rng r(seed);
     if (stamp) out.stamps.reserve(nops);
     try {
         for (size_t k = 0; k < nops; ++k) {
-            int op = static_cast<int>(r.below(NOPS));
-            size_t oi = r.below(sh.strs.size());
+            int op;
+            size_t oi;
+            if (r.below(big_every) == 0) {
+                if (r.chance(1, 5)) { op = NOPS_BASE + NOPS_SHARED2 + static_cast<int>(r.below(NOPS_LOCAL_BIG)); oi = r.below(sh.nsmall); }
+                else {
+                    // every const operation once, the searches / split / replace / comparisons in both case modes twice
+                    static const int menu[] = {0, 1, 2, 3, 4, 5, 6, 7, 8, 9, 10, 11, 12, 13, 14, 15, 16, 17, 18, 19, 44, 45, 46, 47, 48, 49, 50, 51, 52, 53, 0, 45, 46, 47, 48, 50, 51};
+                    op = r.pick(menu);
+                    oi = sh.nsmall + r.below(sh.nbig());
+                    if (oi == sh.large && !r.chance(1, 3)) oi = sh.nsmall + r.below(sh.nbig());
+                    ++out.big_ops;
+                }
+            } else {
+                op = static_cast<int>(r.below(NOPS_BASE + NOPS_SHARED2));
+                oi = r.below(sh.nsmall);
+            }
             uint64_t t0 = stamp ? now_ns() : 0;
             do_op(op, r, sh, oi, out.digest);
             if (stamp) out.stamps.push_back(OpStamp{static_cast<uint16_t>(op), static_cast<uint16_t>(oi), t0, now_ns()});
@@ -159,17 +249,121 @@ static void run_program(uint64_t seed, size_t nops, const Shared &sh, ThreadOut 
     }
 }
 
-static void build_shared(Shared &sh)
+template <typename T>
+static void watch_units(Shared &sh, const std::string &name, const T *data, size_t units)
+{
+    sh.watch.push_back(Watch{name, data, units, sizeof(T), std::string(reinterpret_cast<const char *>(data), (units + 1) * sizeof(T))});
+}
+
+static void build_shared(Shared &sh, Rng &r, bool any_large_size)
 {
     // every size class: empty, short, at the limit, long; ASCII, multi-byte
     const char *vals[] = {"", "a", "short, text a", "exactly15bytes!", "sixteen bytes!!,", "seventeen bytes, a",
                           "a longer string, with commas, spaces and the letter a in several places, long enough for the heap",
                           "caf\xC3\xA9 \xE2\x82\xAC \xF0\x9F\x98\x80 multi-byte, text a"};
     for (const char *v : vals) sh.strs.push_back(ST::string::from_validated(v, strlen(v)));
+    sh.nsmall = sh.strs.size();
     sh.cbuf = ST::char_buffer("shared char buffer that is long enough to live on the heap", 58);
     sh.u16buf = ST::utf16_buffer(u"shared utf16 € buffer, long enough", 34);
     sh.u32buf = ST::utf32_buffer(U"shared utf32 \U0001F600 buffer, long enough", 34);
     sh.wbuf = ST::wchar_buffer(L"shared wide é buffer, long enough", 33);
+
+    // ---- 64 KiB .. 1 MiB: lengths on / next to multiples of the block sizes; the features the operations look for (needles
+    // in both cases, separators, white space at the ends, multi-byte characters) sit late in the text or straddle a multiple
+    std::vector<S> bigs;
+    auto words = [&](size_t n, const char *alphabet, unsigned space_one_in) {
+        S t(n, 'x');
+        const size_t na = strlen(alphabet);
+        for (size_t i = 0; i < n; ++i) t[i] = r.chance(1, space_one_in) ? ' ' : alphabet[r.below(na)];
+        return t;
+    };
+    auto finish = [&](S t, bool commas) {
+        // a handful of separators and needles (few: replace / split stay cheap), one needle across a 64 KiB multiple, a tail
+        const size_t n = t.size();
+        if (commas) for (int k = 0; k < 12; ++k) t[r.below(n)] = ',';
+        scale::plant(t, 65536 - 3, "NeEdLe");
+        scale::plant(t, scale::offset_any(r, n - 40), "needle");
+        scale::plant(t, n - 30, ", a longer Needle tail");
+        return t;
+    };
+    // exactly 64 KiB, one less, a little more
+    bigs.push_back(finish(words(65536, "bcdefghijklmnopqrstuvwy", 7), true));
+    bigs.push_back(finish(words(65535, "BCDefghIJKlmnopqRSTuvwy", 9), false));
+    bigs.push_back(finish(words(65536 + 1 + r.below(40), "bcdfgh", 5), true));
+    // 3 * 2^15 with white space at both ends (trim), a two-byte background, mixed UTF-8 with four-byte characters around 2^17
+    { S t = finish(words(scale::length(r, 110000, 98304), "bcdefgh", 6), true); const size_t ws = 20000 + r.below(20000); for (size_t i = 0; i < ws; ++i) { t[i] = " \t\n"[i % 3]; t[t.size() - 1 - i] = ' '; } bigs.push_back(t); }
+    { S t = scale::utf8_background(r, scale::length(r, 80000, 66000) - 22, scale::TWO_BYTE_RUN) + ", a longer Needle tail"; bigs.push_back(t); }
+    { S t = scale::utf8_background(r, scale::length(r, 140000, 131000) - 22, scale::MIXED_UTF8) + ", a longer Needle tail"; bigs.push_back(t); }
+    // one large one: 256 KiB / 512 KiB / 1 MiB (any q * 2^k up to 1 MiB in the thorough tier); it is picked less often
+    {
+        static const size_t large[] = {262144, 524288, 1048576};
+        const size_t n = any_large_size ? scale::length(r, 1u << 20, 262144) : static_cast<size_t>(static_cast<long>(r.pick(large)) + std::min<long>(0, scale::nudge(r)));
+        bigs.push_back(finish(words(n, "bcdefghijklmnopqrstuvwy", 50), true));
+    }
+    const size_t nb = bigs.size();
+    sh.large = sh.nsmall + nb - 1;
+    // twins: the same text in the other case, a long proper prefix: compare_i / starts_with / find(t) run over the whole length
+    { S t = bigs[1]; for (char &c : t) if (c >= 'a' && c <= 'z') c = static_cast<char>(c - 32); else if (c >= 'A' && c <= 'Z') c = static_cast<char>(c + 32); bigs.push_back(t); }
+    { S t = bigs[0]; t.resize(t.size() - 20); bigs.push_back(t); }
+    for (const S &b : bigs) sh.strs.push_back(ST::string::from_validated(b.data(), b.size()));
+    sh.twin.assign(bigs.size(), 0);
+    for (size_t k = 0; k < bigs.size(); ++k) sh.twin[k] = sh.nsmall + (k + 1) % (nb - 1);
+    sh.twin[1] = sh.nsmall + nb; sh.twin[nb] = sh.nsmall + 1;
+    sh.twin[0] = sh.nsmall + nb + 1; sh.twin[nb + 1] = sh.nsmall;
+    {
+        const S &src = bigs[5];      // mixed UTF-8
+        ref::Decoded dec = ref::decode_utf8(src);
+        std::u16string u16; std::u32string u32;
+        ref::to_utf16(dec, false, u16);
+        ref::to_utf32(dec, false, u32);
+        std::wstring w(u32.begin(), u32.end());
+        sh.big_cbuf = ST::char_buffer(src.data(), src.size());
+        sh.big_u16buf = ST::utf16_buffer(u16.data(), u16.size());
+        sh.big_u32buf = ST::utf32_buffer(u32.data(), u32.size());
+        sh.big_wbuf = ST::wchar_buffer(w.data(), w.size());
+    }
+    // private copies of everything that is shared (taken last: the objects do not move any more)
+    for (size_t k = 0; k < sh.strs.size(); ++k) watch_units(sh, sfmt("string #%zu (%zu bytes)", k, sh.strs[k].size()), sh.strs[k].c_str(), sh.strs[k].size());
+    watch_units(sh, "char_buffer", sh.cbuf.data(), sh.cbuf.size());
+    watch_units(sh, "utf16_buffer", sh.u16buf.data(), sh.u16buf.size());
+    watch_units(sh, "utf32_buffer", sh.u32buf.data(), sh.u32buf.size());
+    watch_units(sh, "wchar_buffer", sh.wbuf.data(), sh.wbuf.size());
+    watch_units(sh, "big char_buffer", sh.big_cbuf.data(), sh.big_cbuf.size());
+    watch_units(sh, "big utf16_buffer", sh.big_u16buf.data(), sh.big_u16buf.size());
+    watch_units(sh, "big utf32_buffer", sh.big_u32buf.data(), sh.big_u32buf.size());
+    watch_units(sh, "big wchar_buffer", sh.big_wbuf.data(), sh.big_wbuf.size());
+}
+
+// every shared object still is where it was, as long as it was, with exactly its original units and its terminator
+static void verify_shared(const Shared &sh, const char *when)
+{
+    auto current = [&](size_t k, const void *&data, size_t &units) {
+        const size_t ns = sh.strs.size();
+        if (k < ns) { data = sh.strs[k].c_str(); units = sh.strs[k].size(); return; }
+        switch (k - ns) {
+        case 0: data = sh.cbuf.data(); units = sh.cbuf.size(); break;
+        case 1: data = sh.u16buf.data(); units = sh.u16buf.size(); break;
+        case 2: data = sh.u32buf.data(); units = sh.u32buf.size(); break;
+        case 3: data = sh.wbuf.data(); units = sh.wbuf.size(); break;
+        case 4: data = sh.big_cbuf.data(); units = sh.big_cbuf.size(); break;
+        case 5: data = sh.big_u16buf.data(); units = sh.big_u16buf.size(); break;
+        case 6: data = sh.big_u32buf.data(); units = sh.big_u32buf.size(); break;
+        default: data = sh.big_wbuf.data(); units = sh.big_wbuf.size(); break;
+        }
+    };
+    for (size_t k = 0; k < sh.watch.size(); ++k) {
+        const Watch &w = sh.watch[k];
+        const void *data; size_t units;
+        current(k, data, units);
+        vrt::count("shared_objects.verified");
+        if (data != w.data || units != w.units) { vrt::violation("C20:shared-object-moved-or-resized", sfmt("%s %s: data %p size %zu, was %p size %zu", w.name.c_str(), when, data, units, w.data, w.units)); continue; }
+        if (memcmp(data, w.orig.data(), w.orig.size()) != 0) {
+            const std::string now(static_cast<const char *>(data), w.orig.size());
+            const size_t at = scale::first_diff(now, w.orig);
+            vrt::violation("C20:shared-object-changed", sfmt("%s %s: byte %zu of %zu (unit %zu of %zu%s) is %02x, was %02x; now %s", w.name.c_str(), when, at, w.orig.size(), at / w.unit, w.units,
+                                                             at / w.unit == w.units ? ", the terminator" : "", static_cast<unsigned char>(now[at]), static_cast<unsigned char>(w.orig[at]), scale::brief(now, at).c_str()));
+        }
+    }
 }
 
 static void body()
@@ -178,15 +372,21 @@ static void body()
     vrt::require("ops.concurrent", 10000);
     vrt::require("overlap.same_shared_object_pairs", 100);
     vrt::require("overlap.same_operation_pairs", 100);
+    // scale: const operations on shared objects of 64 KiB .. 1 MiB, overlapping in time on the same object
+    vrt::require("scale.ops_on_big_shared_objects.concurrent", 500);
+    vrt::require("scale.overlap.same_big_shared_object_pairs", 50);
+    vrt::require("scale.overlap.same_operation_on_same_big_object_pairs", 1);
+    vrt::require("shared_objects.verified", 50);
     vrt::case_cpu_budget() = 600;
     const size_t rounds = vrt::tier_count(6, 80);
     vrt::phase("rounds", rounds, [&](uint64_t round, Rng &r) {
         const size_t nthreads = (round % 2) ? 16 : 4;
         const size_t nops = vrt::thorough() ? (round % 5 == 0 ? 50000 : 8000) : (round % 3 == 0 ? 6000 : 2500);
-        Shared sh;
-        build_shared(sh);
+        const size_t big_every = std::max<size_t>(12, nops / (vrt::thorough() ? 96 : 32));      // about 32 (96) big steps in each thread program
         std::vector<uint64_t> seeds;
         for (size_t k = 0; k < nthreads; ++k) seeds.push_back(r.next());
+        Shared sh;
+        build_shared(sh, r, vrt::thorough() && round % 2);
         std::vector<ThreadOut> conc(nthreads), seq(nthreads);
         vrt::cur_printf("round=%llu threads=%zu ops/thread=%zu\n", static_cast<unsigned long long>(round), nthreads, nops);
         // ---- concurrent round: threads start behind a barrier
@@ -198,17 +398,20 @@ static void body()
                 th.emplace_back([&, k] {
                     ready.fetch_add(1);
                     while (!go.load(std::memory_order_acquire)) { }
-                    run_program(seeds[k], nops, sh, conc[k], true);
+                    run_program(seeds[k], nops, big_every, sh, conc[k], true);
                 });
             while (ready.load() < static_cast<int>(nthreads)) { }
             go.store(true, std::memory_order_release);
             for (auto &t : th) t.join();
         }
+        verify_shared(sh, "after the concurrent round");
         // ---- the same programs alone, afterwards
-        for (size_t k = 0; k < nthreads; ++k) run_program(seeds[k], nops, sh, seq[k], false);
+        for (size_t k = 0; k < nthreads; ++k) run_program(seeds[k], nops, big_every, sh, seq[k], false);
+        verify_shared(sh, "after the sequential re-run");
         for (size_t k = 0; k < nthreads; ++k) {
             vrt::evals(conc[k].ops);
             vrt::count("ops.concurrent", conc[k].ops);
+            vrt::count("scale.ops_on_big_shared_objects.concurrent", conc[k].big_ops);
             if (!conc[k].error.empty() || !seq[k].error.empty())
                 vrt::violation("C20:exception-in-thread-program", sfmt("thread %zu: concurrent '%s' sequential '%s'", k, conc[k].error.c_str(), seq[k].error.c_str()));
             else if (conc[k].digest != seq[k].digest || conc[k].ops != seq[k].ops)
@@ -229,32 +432,42 @@ static void body()
                     ev.push_back(Ev{s.t1, 1, static_cast<uint32_t>(k), s.op, s.obj});
                 }
             std::sort(ev.begin(), ev.end(), [](const Ev &a, const Ev &b) { return a.t < b.t || (a.t == b.t && a.kind > b.kind); });
-            std::vector<int> open_obj(sh.strs.size(), 0), open_op(NOPS, 0);
-            uint64_t same_obj = 0, same_op = 0, any = 0;
+            std::vector<int> open_obj(sh.strs.size(), 0), open_op(NOPS, 0), open_op_obj(static_cast<size_t>(NOPS) * sh.strs.size(), 0);
+            uint64_t same_obj = 0, same_op = 0, any = 0, same_big = 0, same_op_big = 0;
             int open_total = 0;
             for (const Ev &e : ev) {
+                const bool shared = on_shared(e.op), big = shared && e.obj >= sh.nsmall;
                 if (e.kind == 0) {
                     any += static_cast<uint64_t>(open_total);
-                    if (e.op < 20) same_obj += static_cast<uint64_t>(open_obj[e.obj]);
+                    if (shared) same_obj += static_cast<uint64_t>(open_obj[e.obj]);
+                    if (big) { same_big += static_cast<uint64_t>(open_obj[e.obj]); same_op_big += static_cast<uint64_t>(open_op_obj[e.op * sh.strs.size() + e.obj]); }
                     same_op += static_cast<uint64_t>(open_op[e.op]);
                     ++open_total;
-                    if (e.op < 20) ++open_obj[e.obj];
+                    if (shared) { ++open_obj[e.obj]; ++open_op_obj[e.op * sh.strs.size() + e.obj]; }
                     ++open_op[e.op];
                 } else {
                     --open_total;
-                    if (e.op < 20) --open_obj[e.obj];
+                    if (shared) { --open_obj[e.obj]; --open_op_obj[e.op * sh.strs.size() + e.obj]; }
                     --open_op[e.op];
                 }
             }
             vrt::count("overlap.any_pairs", any);
             vrt::count("overlap.same_shared_object_pairs", same_obj);
             vrt::count("overlap.same_operation_pairs", same_op);
+            vrt::count("scale.overlap.same_big_shared_object_pairs", same_big);
+            vrt::count("scale.overlap.same_operation_on_same_big_object_pairs", same_op_big);
         }
         vrt::count("rounds");
         vrt::count(sfmt("rounds.with_%zu_threads", nthreads));
         vrt::distinct(vrt::fnv_u64(seeds[0], vrt::fnv_u64(nthreads, 161)));
-        vrt::sample("rounds", sfmt("round %llu: %zu threads x %zu operations (44 kinds: 20 const operations on 8 shared strings + 4 shared buffers, 24 on thread-local objects), digests compared with a sequential re-run",
-                                   static_cast<unsigned long long>(round), nthreads, nops), 2);
+        vrt::sample("rounds", sfmt("round %llu: %zu threads x %zu operations (%d kinds: %d const operations on 8 small + %zu big (64 KiB .. 1 MiB) shared strings and 4 + 4 shared buffers, the others on thread-local objects), digests compared with a sequential re-run",
+                                   static_cast<unsigned long long>(round), nthreads, nops, NOPS, 20 + NOPS_SHARED2, sh.nbig()), 2);
+        {
+            std::string sizes;
+            for (size_t k = sh.nsmall; k < sh.strs.size(); ++k) sizes += sfmt(" %zu", sh.strs[k].size());
+            vrt::sample("scale", sfmt("round %llu: one step in %zu is a const operation on one of %zu shared strings of%s bytes (or on shared buffers of %zu / %zu / %zu / %zu units); every shared object compared with its private copy after the round",
+                                      static_cast<unsigned long long>(round), big_every, sh.nbig(), sizes.c_str(), sh.big_cbuf.size(), sh.big_u16buf.size(), sh.big_u32buf.size(), sh.big_wbuf.size()), 1);
+        }
     });
 }
 
